@@ -155,7 +155,7 @@ func (a *authWorld) argsFor(endpoint string, variant int) []interface{} {
 		}
 		return []interface{}{r}
 	case "vipnode_peer":
-		r := pool.PeerRequest{Num: 1, Kind: "geth"}
+		r := pool.PeerRequest{Num: 3, Kind: "geth"}
 		switch k {
 		case 1:
 			r.Num = 2
@@ -175,7 +175,7 @@ func (a *authWorld) argsFor(endpoint string, variant int) []interface{} {
 		}
 		return []interface{}{r}
 	case "vipnode_client":
-		r := pool.ClientRequest{Kind: "geth", NumHosts: 1}
+		r := pool.ClientRequest{Kind: "geth", NumHosts: 3}
 		switch k {
 		case 1:
 			r.NumHosts = 2
@@ -514,6 +514,12 @@ func (a *authWorld) caseCoq(items []string) string {
 func c04ParamSweep(ctx *Ctx, i int, drv int) {
 	a := newAuthWorld(drv)
 	defer a.Close()
+	// every other sweep runs on a pool with a per-request cap on returned hosts: a configuration
+	// of what is SERVED, which must not reach into what is verified (requests ask for 3, a
+	// changed one for 2 = the cap)
+	if i%4 >= 2 {
+		a.pool.MaxRequestHosts = 2
+	}
 	rng := ctx.Sub(i)
 	var items []string
 	var reqs []*AReq
@@ -543,9 +549,9 @@ func c04ParamSweep(ctx *Ctx, i int, drv int) {
 
 func runC04(ctx *Ctx) {
 	n := ctx.N(24, 600)
-	for drv := 0; drv < 2; drv++ {
-		if ctx.Want(n + 50 + drv) {
-			c04ParamSweep(ctx, n+50+drv, drv)
+	for k := 0; k < 4; k++ {
+		if ctx.Want(n + 50 + k) {
+			c04ParamSweep(ctx, n+50+k, k%2)
 		}
 	}
 	for c := 0; c < ctx.N(6, 60); c++ {
